@@ -31,7 +31,7 @@ BUILTIN_ANNS = [('Om1', 'Omitted', ('alpha',)), ('Om2', 'Omitted', ('beta',)), (
 def doc_menu(model, ns_name, owner=None, own_field=None):
     """Valid doc strings at a site (reference: lang_ref.rst 'Documentation')."""
     out = ['Plain doc about this namespace.', 'Two\nlines here.\n\nAnd a paragraph with "quotes" and a \\ backslash.',
-           'A link :link:`Stone Repo https://github.com/dropbox/stone` and :val:`null`, :val:`"s"`, :val:`-1.5`.',
+           'A link :link:`Stone Repo https://github.com/dropbox/stone` and :val:`null`, :val:`"s"`, :val:`-1.5`. Quoted ":val:`"x"`", :val:`""`:val:`"a"` and the path C:\\temp\\new.',
            'Triple """quotes""", a caf\u00e9 \u2603, {braces} %s and a trailing backslash \\']
     for r in visible_refs(model, ns_name):
         tgt = mm.resolve(model, ns_name, r)
